@@ -91,6 +91,7 @@ Fixpoint exec_p (fuel : nat) (esc : bool) (s : st) (t : stmt) {struct fuel} : pr
         pbind (lift s (eval c fuel esc s iter)) (fun '(iv, s1) =>
         pbind (lift s1 (match iv with
               | VList l => Ok l
+              | VStr _ t => Ok (map (fun ch => VStr false [ch]) t)     (* a string iterates over its characters *)
               | VUndef => if u_strictish m then Err E_UndefinedError else Ok []
               | VSilent => Ok []
               | _ => Err E_InvalidOperation end)) (fun items =>
